@@ -52,7 +52,7 @@ def generate(seed, tier):
         nk = g.int(1, 4)
         idxs = [0, 1, 2, 3]
         g.r.shuffle(idxs)
-        keys = [[idxs[i], g.pick(['pythonrsa', 'cryptography', 'pycryptodome'])] for i in range(nk)]
+        keys = [[idxs[i], g.pick(['pythonrsa', 'cryptography', 'pycryptodome', 'pythonrsa_u'])] for i in range(nk)]
         d['auth'] = [{'accept_key': g.pick([keys[-1][0], keys[-1][0], None]), 'pubkey': 'accept', 'think_s': 0.0}]
         scn['actors'][0][0]['keys'] = keys
         scn['actors'][0][0]['at'] = 5.0
